@@ -207,9 +207,37 @@ def run(ctx):
     cov["rule"] = ("point (24 units; quick: K, degC, degF, degR, mK, kK + 3 rotating) +/- interval (24 units; quick: K, degC, degF + 1 rotating) with + - += -= and "
                    "interval + point, f64/f32/BigRational, temperature base units kelvin/millikelvin/kilokelvin on either side (5 ordered pairs); values incl. "
                    "-273.15, -40, 0, -0.0, 1e6; each stage (stored point, stored interval, stored result, read-back) compared with the extracted model; "
-                   "read-back compared with t +/- delta k'/k exactly (BigRational) / to 64 ulps of the largest term (floats); programs: From/Into between point and interval in "
+                   "read-back compared with t +/- delta k'/k exactly (BigRational) / to 64 ulps of the largest term (floats); the same-base cases of K, degC, degF, mK rerun in a build "
+                   "without autoconvert and compared answer by answer; programs: From/Into between point and interval in "
                    "every direction and base combination, point +/- point, point +/- interval, interval - point, negation, with positive controls, judged by rustc with "
                    "and without autoconvert against the typing model")
+    # the same programs built WITHOUT autoconvert (same-base pairs only: the others do not compile there) give the same answers
+    hn = Harness("c09n", [f for f in FEATURES if f != "autoconvert"], prelude=prelude(TYPES))
+    ncases, nref = [], {}
+    slot_n = {}
+    for cid, sl, args in cases:
+        ty, bl, br, pu, iu, op, tv, dv, _ = meta[cid]
+        if bl != br or pu["name"] not in ("kelvin", "degree_celsius", "degree_fahrenheit", "millikelvin") or iu["name"] not in ("degree_celsius", "degree_fahrenheit", "kelvin"):
+            continue
+        key = (pu["name"], iu["name"], bl, br, ty)
+        if key not in slot_n:
+            slot_n[key] = hn.slot(slot(pu["name"], iu["name"], bl, br, ty))
+        ncases.append((cid, slot_n[key], args))
+    noac_diff = []
+    if not hn.build():
+        ctx.violation({"kind": "harness-build", "obligation": "the temperature point/interval harness no longer compiles against /repo without autoconvert",
+                       "log": hn.build_log[-3000:]}, no_input=True)
+    else:
+        nimpl = hn.run(ncases)
+        for cid, sl, args in ncases:
+            if nimpl.get(cid) != impl.get(cid):
+                noac_diff.append((cid, nimpl.get(cid)))
+        for cid, gotn in noac_diff[:3]:
+            ctx.violation(replay_case(cid, {"spec": "C09: point +/- interval in one scale is t +/- d - also in a build without the autoconvert feature (same base units)",
+                                            "detail": f"without autoconvert the same program answers {gotn}, with autoconvert {impl.get(cid)} (stored point, stored interval, stored result, read-back)",
+                                            "features_without": hn.features}))
+    cov["no_autoconvert_same_base_cases"] = len(ncases)
+    cov["no_autoconvert_differences"] = len(noac_diff)
     cov["spec_checked"] = checked
     cov["spec_skipped_exact_intermediate_out_of_range"] = out_of_range
     cov["disagreements_checked"] = len(disagreements)
